@@ -669,6 +669,7 @@ pub fn parent_main(check: &'static dyn Check, tier: Tier, seed: u64) -> i32 {
         }
     };
     let dir = pctx.scratch.root.clone();
+    std::env::set_var("VERIF_SCRATCH_BASE", &dir);
 
     // 3. workers
     let n: u64 = std::env::var("VERIF_WORKERS")
